@@ -236,6 +236,33 @@ def make_ops():
         return run
     add("decrypt ECDH-1PU from sender 7 [shared recipient key]", dec_1pu(7))
     add("decrypt ECDH-1PU from sender 8 [shared recipient key]", dec_1pu(8))
+    def verify_and_edit(f, d):
+        r = call(jws.deserialize_compact, ref_token("HS256", "oct32"), f["oct"])
+        o = obs_verify(r)
+        if r.ok:       # what came back is the caller's: it annotates the header and blanks the payload
+            r.value.protected["verified-by"] = "gateway-7"
+            r.value.protected.pop("alg", None)
+            r.value.payload = b""
+        return o
+    add("verify HS256, then the caller edits the returned object [oct key]", verify_and_edit)
+
+    def decode_and_edit(f, d):
+        r = call(jwt.decode, ref_token("HS256", "oct32"), f["oct"])
+        o = ("claims", r.value.claims and dict(r.value.claims), tuple(sorted(r.value.header))) if r.ok else ("rej", type(r.exc).__name__)
+        if r.ok:
+            r.value.header.clear()
+            r.value.claims["iss"] = "somebody else"
+        return o
+    add("jwt.decode HS256, then the caller edits the returned token [oct key]", decode_and_edit)
+
+    def decrypt_and_edit(f, d):
+        r = call(jwe.decrypt_compact, ref_jwe("dir", "oct32", "A256GCM"), f["oct"])
+        o = obs_decrypt(r)
+        if r.ok:
+            r.value.protected.clear()
+            r.value.plaintext = b""
+        return o
+    add("decrypt dir+A256GCM, then the caller edits the returned object [oct key]", decrypt_and_edit)
     add("jwt.encode HS256 [oct key]", lambda f, d: obs_sign(call(jwt.encode, {"alg": "HS256"}, {"iss": "joe"}, f["oct"]), K("oct32")))
     add("jwt.decode HS256 [oct key]", lambda f, d: (lambda r: ("claims", r.value.claims, tuple(sorted(r.value.header))) if r.ok else ("rej", type(r.exc).__name__))(call(jwt.decode, ref_token("HS256", "oct32"), f["oct"])))
     # JWE
